@@ -25,6 +25,7 @@ CHECKS = {
                  "distinct = distinct SHA-256 of the full event log"),
         "parts": [
             {"module": "rueidis", "scenario": "pipe-mix", "quick": 24000, "thorough": 1200000},
+            {"module": "rueidis", "scenario": "at-most-once", "variant": "lifetime", "quick": 3000, "thorough": 100000},
         ],
         "expected_probes": ["reply-split-across-reads", "cancel-during-call", "push-frames-on-wire"],
         "components": {"real": REAL, "stubs": STUBS},
@@ -108,6 +109,30 @@ CHECKS = {
             "with retries enabled a read-only call may legitimately be re-sent and succeed; 'returns an error' is therefore judged through 'a returned value must be the call's own reply'",
             "an idle connection that died silently is only noticed on use: the first fresh calls after healing may each burn one dead connection; the last of six must be served",
             "after Close a call may return its own context error instead of ErrClosing",
+        ],
+    },
+    "C03": {
+        "level": "fault_enumeration",
+        "rule": ("plans: 2-5 tasks issuing non-retryable writes (VWTAG with a unique id) alone, in batches mixed with reads in any order and inside "
+                 "MULTI...EXEC blocks, with retries enabled and eager RetryDelay, with and without ConnLifetime (1 s, 3 s); enumerated parts: one fault "
+                 "(reset before delivery, reset after the server executed, EOF mid-reply, write error, slow server) at every step boundary 0..255 of "
+                 "each base schedule; random part: 0-4 faults incl. node restart and latencies above and below the 1 s close grace; oracle: in the "
+                 "model's execution log every write id is executed at most once (+ once per redirect reply sent for it); "
+                 "non-trivial = the plan has writes and a fault fired or ConnLifetime is set; distinct = distinct event-log hash"),
+        "parts": [
+            {"module": "rueidis", "scenario": "at-most-once", "quick": 6000, "thorough": 400000},
+            {"module": "rueidis", "scenario": "at-most-once", "variant": "lifetime", "quick": 2000, "thorough": 100000},
+            {"module": "rueidis", "scenario": "at-most-once", "variant": "enum:reset-after-exec", "quick": 1024, "thorough": 25600},
+            {"module": "rueidis", "scenario": "at-most-once", "variant": "enum:reset", "quick": 1024, "thorough": 25600},
+            {"module": "rueidis", "scenario": "at-most-once", "variant": "enum:eof-mid-reply", "quick": 1024, "thorough": 25600},
+            {"module": "rueidis", "scenario": "at-most-once", "variant": "enum:werr", "quick": 1024, "thorough": 25600},
+            {"module": "rueidis", "scenario": "at-most-once", "variant": "enum:slow", "quick": 1024, "thorough": 25600},
+        ],
+        "expected_probes": ["executed-but-unanswered", "request-lost", "conn-lifetime-configured"],
+        "components": {"real": REAL, "stubs": STUBS},
+        "assumptions": [
+            "single-node client front-end only so far (standalone/sentinel/cluster front-ends share the pipe/mux layer but have their own retry loops)",
+            "bytes the client wrote before closing a connection are still delivered to the server (as TCP does), so a re-sent command can overtake its original",
         ],
     },
 }
